@@ -76,3 +76,6 @@ package udp
 
 //@ census[C04] DataWriter.WriteUDPDatagram in (*Handler).readLoop
 //@ census[C04] (*Association).Encrypt in (*Handler).readLoop
+
+// C04: the session key is wiped only by Close, which holds the write lock that Encrypt/Decrypt exclude with their read lock.
+//@ census[C04] crypto.(*SessionKey).Zero in (*Association).Close
